@@ -38,7 +38,7 @@ Section Dirs.
     assert (Hrep : dd_repeatable dx = None -> mem (iname (dir_name x)) seen = false).
     { intros Hr. rewrite Hr in Hn0. destruct (mem (iname (dir_name x)) seen); [discriminate | reflexivity]. }
     destruct Ha as [<-|Ha].
-    - exists dx. split; [reflexivity|]. split; [exact Hloc|]. split; [assumption|].
+    - exists dx. split; [exact Lx|]. split; [exact Hloc|]. split; [assumption|].
       intros Hr. specialize (Hrep Hr). split; [apply mem_false; exact Hrep|].
       cbn [count_name]. rewrite str_eqb_refl.
       destruct (count_name (iname (dir_name x)) r) eqn:C; [lia|]. exfalso.
